@@ -19,7 +19,10 @@ from ..strategies import pct, uni
 ID = 'C13'
 LEVEL = 'exploration'
 ENGINE = 'exhaustive enumeration of tie vectors + hypothesis for long lists'
-RULE = ('case = (list length n, tie-decision vector, entry permutation, placement); all 2^n '
+RULE = ('kind "instance": rows with given tie vectors assembled by the generators\' own '
+        'create_instance (all ordered pairs of vectors on consecutive rows for n <= 4/5, both '
+        'sides, hr and spa) and read back by the solver; kind list: '
+        'case = (list length n, tie-decision vector, entry permutation, placement); all 2^n '
         'vectors for n <= 10/13 are enumerated in all four placements (identity and reversed '
         'entry order), longer ones are drawn; non-trivial = the vector has at least one tie and '
         'one non-tie among its first n-1 decisions; distinct = distinct case')
@@ -37,6 +40,18 @@ def budget(tier):
 
 
 def exhaustive(tier):
+    # whole instances assembled by the generators' create_instance: all ordered pairs of
+    # tie vectors on two consecutive rows of each side (state must not leak between rows)
+    for n in range(1, (4 if tier == 'quick' else 5) + 1):
+        zero = [0] * n
+        for v in itertools.product((0, 1), repeat=n):
+            for w in itertools.product((0, 1), repeat=n):
+                rows = [list(v), list(w)] + [zero] * (n - 2)
+                rows = rows[:n] if n >= 2 else [list(v)]
+                rows_b = [list(w), list(v)] + [zero] * (n - 2)
+                rows_b = rows_b[:n] if n >= 2 else [list(w)]
+                for gen in ('hr', 'spa'):
+                    yield {'kind': 'instance', 'gen': gen, 'n': n, 'rows1': rows, 'rows2': rows_b}
     for n in range(1, NMAX[tier] + 1):
         for vec in itertools.product((0, 1), repeat=n):
             for k, pl in enumerate(PLACEMENTS):
@@ -48,6 +63,13 @@ def exhaustive(tier):
 
 @st.composite
 def _cases(draw):
+    if pct(draw) < 30:
+        n = draw(st.sampled_from([2, 3, 4, 5, 6, 8]))
+        tp = draw(st.sampled_from([30, 50, 70, 100]))
+        rows1 = [[1 if pct(draw) < tp else 0 for _ in range(n)] for _ in range(n)]
+        rows2 = [[1 if pct(draw) < tp else 0 for _ in range(n)] for _ in range(n)]
+        return {'kind': 'instance', 'gen': draw(st.sampled_from(['hr', 'spa'])), 'n': n,
+                'rows1': rows1, 'rows2': rows2}
     pl = draw(st.sampled_from(PLACEMENTS))
     as_numpy = draw(st.booleans())
     n = draw(st.sampled_from([2, 3, 5, 8, 14, 20, 33, 60]))
@@ -130,7 +152,71 @@ def build_file(placement, n, liststr):
     return '\n'.join(lines) + '\n', 3, True
 
 
+def run_instance(case):
+    """Rows with given tie vectors assembled by the generators' own create_instance."""
+    import numpy as np
+    from matchingproblems.generator.generator_ha_sm_hr import Generator_ha_sm_hr
+    from matchingproblems.generator.generator_spa import Generator_spa
+    n = case['n']
+    # agent i ranks all n agents of the other side, in an order rotated by i
+    perms1 = [[(i + j) % n + 1 for j in range(n)] for i in range(n)]
+    perms2 = [[(2 * i + j) % n + 1 for j in range(n)] for i in range(n)]
+    ties1 = [np.array(v) for v in case['rows1']]
+    ties2 = [np.array(v) for v in case['rows2']]
+    p1 = [np.array(p) for p in perms1]
+    p2 = [list(p) for p in perms2]
+    if case['gen'] == 'hr':
+        text = call_repo('create_instance', Generator_ha_sm_hr().create_instance, n, n, p1,
+                         ties1, p2, ties2, [0] * n, [1] * n, 'info\n')
+        na = 2
+    else:
+        text = call_repo('create_instance', Generator_spa().create_instance, n, n, n, p1, ties1,
+                         list(range(1, n + 1)), [0] * n, [1] * n, p2, ties2, [0] * n, [1] * n,
+                         [1] * n, 'info\n')
+        na = 3
+    lines = text.split('\n')
+    want1 = [expected_groups(perms1[i], case['rows1'][i]) for i in range(n)]
+    want2 = [expected_groups(perms2[k], case['rows2'][k]) for k in range(n)]
+    from .. import refmodel
+    for i in range(n):
+        got = lines[1 + i].split()[1:]
+        check_writer(got, perms1[i], case['rows1'][i])
+    off = 1 + n + (n if na == 3 else 0)
+    skip = 4 if na == 3 else 3
+    for k in range(n):
+        got = lines[off + k].split()[skip:]
+        check_writer(got, perms2[k], case['rows2'][k])
+    path = solverio.write_instance(text)
+    try:
+        model = solverio.make_solver(['-f', path, '-na', str(na), '-twopl']).model
+    except Violation as v:
+        raise Violation('reader_fails', 'instance assembled by create_instance (%s): %s'
+                        % (case['gen'], v.detail), exc=v.exc)
+    for i in range(n):
+        rs = {p.projectID: p.rank_student for p in model.pairs[i]}
+        w = {x: r + 1 for r, g in enumerate(want1[i]) for x in g}
+        if rs != w:
+            raise Violation('reader_ranks', 'row %d of side 1 (%r) read with ranks %r, expected %r'
+                            % (i + 1, lines[1 + i], rs, w))
+        for p in model.pairs[i]:
+            k = p.lecturerID - 1
+            w2 = {x: r + 1 for r, g in enumerate(want2[k]) for x in g}
+            if p.rank_lecturer != w2[i + 1]:
+                raise Violation('reader_ranks', 'row %d of side 2 (%r): agent %d read with rank '
+                                '%r, expected %r' % (k + 1, lines[off + k], i + 1,
+                                                     p.rank_lecturer, w2[i + 1]))
+    inner = [x for v in case['rows1'] + case['rows2'] for x in v[:n - 1]]
+    ends_in_tie = any(len(v) >= 2 and v[-2] and v[-1] for v in case['rows1'][:-1] +
+                      case['rows2'][:-1])
+    labels = ['kind=instance', 'gen=' + case['gen']]
+    if ends_in_tie:
+        labels.append('row_ends_in_tie_with_last_decision_set')
+    return Result((1 in inner) and (0 in inner), labels)
+
+
 def run_case(case):
+    if case.get('kind') == 'instance':
+        return run_instance(case)
     from matchingproblems.generator import generator_shared as gs
     import numpy as np
     n, vec, perm, pl = case['n'], case['vec'], case['perm'], case['placement']
